@@ -31,6 +31,9 @@ R5 (K1) hooks that may veto (pre_commit) run before any tip is moved; no tip-mov
    (when the builder itself already moved the tip, the handler moves it back).
 R6 (K2) the empty selection is kept distinct from "no selection": specific_files becomes None only through an identity
    test against None on the caller's value (never by truthiness), in commit() or the helper it delegates to.
+Added while testing against seeded changes: R6b the selection and the exclusion are
+sorted(minimum_path_selection(...)) of what the caller passed and nothing else (no filtering of excludes/selected
+paths).
 Does not decide: that the recorded tree equals basis+selection for every tree shape and path selection
 (record_iter_changes / _filter_iter_changes are data dependent).
 """
